@@ -57,7 +57,10 @@ mod raw {
         posix::poll(&mut fds, timeout)?;
 
         Ok((
-            fds[0].test(posix::POLLOUT | posix::POLLHUP),
+            // POLLERR: the child has closed its stdin.  It must count as ready
+            // (the write then reports EPIPE), otherwise a full pipe whose
+            // reader is gone looks like a timeout.
+            fds[0].test(posix::POLLOUT | posix::POLLHUP | posix::POLLERR),
             fds[1].test(posix::POLLIN | posix::POLLHUP),
             fds[2].test(posix::POLLIN | posix::POLLHUP),
         ))
